@@ -64,10 +64,14 @@ impl<C: CellType> BcInterpreter<C> {
                 if let Instr::BrZ(_, _) | Instr::BrNZ(_, _) = inst {
                     emit_limit(&mut insts, 1);
                 }
-                if let Instr::Scan(_, shift) = inst {
-                    if shift == 0 {
-                        emit_limit(&mut insts, usize::MAX);
-                    }
+                if let Instr::Scan(cond, 0) = inst {
+                    // A stationary scan never ends once it is entered, so charge the whole
+                    // budget, but only if the condition is not already zero.
+                    let start = insts.len();
+                    emit(&mut insts, Instr::BrZ(cond, 0), safe);
+                    emit_limit(&mut insts, usize::MAX);
+                    let skip = (insts.len() - start) as isize;
+                    adjust_branch(&mut insts[start..], skip);
                 }
             }
             inst_offset.push(insts.len());
